@@ -44,7 +44,7 @@ PROPS = {
             "trivial": lambda op, res: False},
     "C20": {"shared": ["Prims"], "gens": ["C20", "C03"], "rule": "(plus the C03 verify stream: IsValid inherits Signature.Verify) env.new on payloads from a JSON value grammar (quotes, backslashes, control and non-ASCII characters, <>&, nesting, numbers) incl. validity after marshal/unmarshal; env.valid over 3 mime types, every payload character altered, r+-1, s+-1, N-s twin, swapped key, 4 present/absent combinations x valid/malformed hex.",
             "trivial": lambda op, res: False},
-    "C09": {"extra": [wrap_search], "rule": "field.* ops through build-tag hooks on word vectors at 0/1/prime-word/mask boundaries and magnitude limits, vs the Lean definitions regenerated from bec/field.go.",
+    "C09": {"extra": [wrap_search], "gens": ["C09", "C01", "C01J"], "rule": "field.* ops through build-tag hooks on word vectors at 0/1/prime-word/mask boundaries and magnitude limits, vs the Lean definitions regenerated from bec/field.go.",
             "trivial": lambda op, res: False},
     "C10": {"rule": "field.normalise/setbytes/putbytes on vectors with value P-1, P, P+1, 2^256-1, carry into bit 256, words at 0/max/prime-word boundaries, vs the regenerated Lean definitions.",
             "trivial": lambda op, res: False},
